@@ -24,6 +24,9 @@ import (
 // Namespace used for every model feature unless a name carries its own (see ID).
 const Namespace b6.Namespace = "diagonal.works/verif"
 
+// Namespace2 sorts before Namespace.
+const Namespace2 b6.Namespace = "a.verif/ns2"
+
 // AFeature is a feature of the abstract world (spec/World.tla).
 type AFeature struct {
 	Kind    string            `json:"kind"`
@@ -99,6 +102,11 @@ func ID(name string) b6.FeatureID {
 		}
 		return b6.FeatureIDInvalid
 	}
+	if n >= 50 {
+		// names numbered from 50 live in a second namespace that sorts BEFORE the first while their values are
+		// larger: ID order (type, namespace, value) and value order disagree
+		return b6.FeatureID{Type: typeOf(name[0]), Namespace: Namespace2, Value: uint64(1000 + n)}
+	}
 	return b6.FeatureID{Type: typeOf(name[0]), Namespace: Namespace, Value: uint64(n + 1)}
 }
 
@@ -121,6 +129,9 @@ func Name(id b6.FeatureID) string {
 	}
 	if id.Namespace == Namespace && id.Value >= 1 && letterOf(id.Type) != "?" {
 		return letterOf(id.Type) + strconv.Itoa(int(id.Value-1))
+	}
+	if id.Namespace == Namespace2 && id.Value >= 1050 && letterOf(id.Type) != "?" {
+		return letterOf(id.Type) + strconv.Itoa(int(id.Value-1000))
 	}
 	return id.String()
 }
